@@ -441,6 +441,7 @@ class FcpV2Transformer(Transformer):
 
         try:
             self.error_logger.add_source(filename.name, source)
+            self.error_logger.add_source(str(filename.resolve()), source)
             fcp_ast = fcp_parser.parse(source)
         except (UnexpectedCharacters, UnexpectedEOF) as e:
             line, column = _error_position(source, e)
@@ -591,6 +592,7 @@ def _get_fcp(
 ) -> Result[v2.FcpV2, FcpError]:
     source = filesystem_proxy.read(filename)
     logger.add_source(filename.name, source)
+    logger.add_source(str(filename.resolve()), source)
     try:
         fcp_ast = fcp_parser.parse(source)
     except (UnexpectedCharacters, UnexpectedEOF) as e:
